@@ -33,6 +33,25 @@ def C(v):
     return ("c", int(v))
 
 
+def ctype(n):
+    """canonical type of an expression node, without cv-qualifiers and references"""
+    while n is not None and n.get("k") in ("defarg", "definit", "stdinit", "opaque") and n.get("e") is not None:
+        n = n["e"]
+    if n is None:
+        return "?"
+    t = n.get("ct") or n.get("ty") or "?"
+    t = t.replace("const ", "").replace(" const", "").replace("&", "").strip()
+    return t
+
+
+def stream(base, *items):
+    """term of base << items...; each item is (term, canonical type)"""
+    t = base
+    for (x, ty) in items:
+        t = ("ap", "mut:<<", t, x, ("s", ty))
+    return t
+
+
 NULL = ("null",)
 
 
@@ -227,14 +246,18 @@ class Run:
                 blv = self.lvalue(b, fr)
                 if blv[0] == "tmp":
                     base = blv[1]
-                else:
-                    # a field of an object held by value: address it through the object's current term
-                    base = ("obj", blv) if blv[0] == "cell" else ("f", blv[1], blv[2])
-                    if blv[0] == "cell":
-                        cur = self.store[blv]
-                        # reads of o.f where o's term is opaque -> f(o, f)
+                elif blv[0] == "cell":
+                    # a field of an object held by value (or bound by reference): keyed on the cell; reads of a field never
+                    # written are f(term of the object, field)
+                    cur = self.store[blv]
+                    if isinstance(cur, tuple) and cur[0] == "ap" and cur[1].startswith("obj:") and len(cur) == 3:
+                        base = cur[2]
+                    else:
+                        base = ("obj", blv)
                         if (base, n["n"]) not in self.heap:
                             return ("hpv", blv, n["n"], cur)
+                else:
+                    base = self._load(blv)
             return ("hp", base, n["n"])
         if k in ("cast", "defarg", "definit", "stdinit", "opaque"):
             return self.lvalue(n["e"], fr)
@@ -381,6 +404,8 @@ class Run:
             return C(0)
         if k == "lambda":
             return ("a", "lambda@%s" % n.get("l"))
+        if k == "predef":
+            return ("s", "__func__")
         if k == "new":
             return ("ap", "new", ("s", n.get("ty") or ""))
         if k == "throw":
@@ -447,7 +472,8 @@ class Run:
         ts = self.args_terms(args, fr)
         fn = self.X.callee(n)
         if fn is not None and self.X.may_inline(fn, n) and self.depth < MAX_DEPTH:
-            obj = ("a", "obj@%s:%s:%s" % (fr.func.file, n.get("l"), n.get("c")))
+            self.nobj = getattr(self, "nobj", 0) + 1
+            obj = ("a", "obj#%d" % self.nobj)
             self.inline(fn, n, args, ts, fr, this=obj)
             return ("ap", "obj:" + (n.get("ct") or n.get("ty") or "?"), obj)
         if not ts:
@@ -476,10 +502,20 @@ class Run:
             self.events.append(Ev("call", name, ts, n, fr.func))
             self.status = "abort"
             return ("a", "noreturn")
+        if name in ("move", "forward", "as_const") and len(ts) == 1 and (n.get("callee") or "").startswith("std::"):
+            return ts[0]
         fn = self.X.callee(n)
         if fn is not None and self.X.may_inline(fn, n) and self.depth < MAX_DEPTH:
             return self.inline(fn, n, args, ts, fr, this=None)
         self.events.append(Ev("call", name, ts, n, fr.func))
+        if name in self.X.stream_calls and len(args) >= 2:
+            # Serialize(s, x) is s << x; WriteCompactSize(s, n) is a stream mutation of its own kind
+            lv = self.lvalue(args[0], fr)
+            op = "<<" if name == "Serialize" else name
+            new = ("ap", "mut:" + op, ts[0], ts[1], ("s", ctype(args[1])))
+            if lv[0] != "tmp":
+                self._save(lv, new)
+            return new
         self.havoc_outargs(n, args, ts, fr, name)
         return ("ap", name,) + tuple(ts)
 
@@ -501,6 +537,8 @@ class Run:
         fn = self.X.callee(n)
         if fn is not None and not n.get("virt") and self.X.may_inline(fn, n) and self.depth < MAX_DEPTH:
             this = ot if (n.get("objptr") or lv is None) else (("obj", lv) if lv[0] == "cell" else ot)
+            if isinstance(ot, tuple) and ot[0] == "ap" and ot[1].startswith("obj:") and len(ot) == 3:
+                this = ot[2]
             return self.inline(fn, n, args, ts, fr, this=this)
         self.events.append(Ev("mcall", name, [ot] + ts, n, fr.func))
         self.havoc_outargs(n, args, ts, fr, name)
@@ -527,7 +565,7 @@ class Run:
             if fn is not None and self.X.may_inline(fn, n) and self.depth < MAX_DEPTH:
                 pass
             self.events.append(Ev("op", op, [base, t], n, fr.func))
-            new = ("ap", "mut:" + op, base, t)
+            new = ("ap", "mut:" + op, base, t, ("s", ctype(args[1])))
             self._slv = lv
             if lv[0] != "tmp":
                 self._save(lv, new)
@@ -726,39 +764,64 @@ class Run:
             self.stmt(s["init"], fr)
         elem = None
         ivar = None
-        if k == "forrange":
-            rng = self.ev(s.get("range"), fr)
-            elem = ("elem", rng)
-            if s.get("var"):
-                fr.vars[s.get("vard") or s["var"]] = self.new_cell(elem)
-        else:
-            c = self.ev(s["cond"], fr) if s.get("cond") is not None else C(1)
-            if is_const(c) and c[1] == 0:
-                return
-            ivar = self.X.canonical_index(s, fr, self)
-        # one symbolic iteration, recorded as a loop event; variables written in the body are havocked afterwards
-        mark = len(self.events)
-        before = dict(self.store)
-        if ivar is not None:
-            cell, vec = ivar
-            self.store[cell] = ("idx", vec)
-        self.stmt(s.get("body"), fr)
-        st = self.status
-        if st in ("break", "continue"):
-            self.status = None
-        body_events = self.events[mark:]
-        del self.events[mark:]
-        key = elem[1] if elem else (ivar[1] if ivar else ("a", "loop@%s" % s.get("l")))
-        self.events.append(Ev("loop", "loop", [key], s, fr.func))
-        self.events[-1].body = body_events
-        self.events[-1].writes = {}
-        for cell, old in before.items():
-            new = self.store.get(cell)
-            if new != old:
-                self.events[-1].writes[cell] = new
-                self.store[cell] = ("ap", "loopvar", key, new) if new is not None else old
-        if ivar is not None:
-            self.store[ivar[0]] = ("ap", "m:size", ivar[1])
+        key = None
+        self.loopdepth = getattr(self, "loopdepth", 0) + 1
+        it = ("it", self.loopdepth - 1)
+        try:
+            if k == "forrange":
+                rng = self.ev(s.get("range"), fr)
+                elem = ("elem", rng)
+                key = rng
+                if s.get("var"):
+                    fr.vars[s.get("vard") or s["var"]] = self.new_cell(elem)
+            else:
+                c = self.ev(s["cond"], fr) if s.get("cond") is not None else C(1)
+                if is_const(c) and c[1] == 0:
+                    return
+                ivar = self.X.canonical_index(s, fr, self)
+                if ivar is not None:
+                    key = ivar[1]
+                    self.store[ivar[0]] = ("idx", ivar[1])
+                else:
+                    # the counters the increment writes are symbolic during the summarised iteration
+                    j = 0
+                    for x in walk(s["inc"]) if s.get("inc") is not None else []:
+                        tgt = None
+                        if x.get("k") == "un" and x.get("op") in ("++", "--"):
+                            tgt = x["e"]
+                        elif x.get("k") in ("assign", "cassign"):
+                            tgt = x["lhs"]
+                        elif x.get("k") == "opcall" and x.get("op") in ("++", "--", "+=", "-=", "="):
+                            tgt = x["args"][0]
+                        if tgt is not None:
+                            lv = self.lvalue(tgt, fr)
+                            if lv[0] == "cell":
+                                self.store[lv] = it if j == 0 else it + (j,)
+                                j += 1
+                    if k == "while" or j == 0:
+                        self.notes.append("loop without a recognised counter summarised at %s:%s" % (fr.func.file, s.get("l")))
+                    key = ("ap", "while", self.ev(s["cond"], fr)) if s.get("cond") is not None else ("ap", "forever")
+            # one symbolic iteration, recorded as a loop event; cells written in the body hold loopvar(key, term) afterwards
+            mark = len(self.events)
+            before = dict(self.store)
+            self.stmt(s.get("body"), fr)
+            if self.status in ("break", "continue"):
+                self.status = None
+            body_events = self.events[mark:]
+            del self.events[mark:]
+            ev = Ev("loop", "loop", [key], s, fr.func)
+            ev.body = body_events
+            ev.writes = {}
+            self.events.append(ev)
+            for cell, old in before.items():
+                new = self.store.get(cell)
+                if new != old:
+                    ev.writes[cell] = new
+                    self.store[cell] = ("ap", "loopvar", key, new, old)
+            if ivar is not None:
+                self.store[ivar[0]] = ("ap", "m:size", ivar[1])
+        finally:
+            self.loopdepth -= 1
 
 
 class Explorer:
@@ -770,6 +833,7 @@ class Explorer:
         self.inline_pred = inline
         self.globals = {}
         self.transparent = transparent
+        self.stream_calls = {"Serialize", "WriteCompactSize"}
 
     def callee(self, n):
         cid = n.get("cid")
